@@ -6102,14 +6102,14 @@ static PyObject* hegv(PyObject *self, PyObject *args, PyObject *kwrds)
 #endif
 
 #if PY_MAJOR_VERSION >= 3
-    if (!PyArg_ParseTupleAndKeywords(args, kwrds, "OOO|iCCiiiii",
+    if (!PyArg_ParseTupleAndKeywords(args, kwrds, "OOO|iCCiiiiii",
         kwlist, &A, &B, &W, &itype, &jobz_, &uplo_, &n, &ldA, &ldB, &oA,
         &oB, &oW)) 
         return NULL;
     uplo = (char) uplo_;
     jobz = (char) jobz_;
 #else
-    if (!PyArg_ParseTupleAndKeywords(args, kwrds, "OOO|icciiiii",
+    if (!PyArg_ParseTupleAndKeywords(args, kwrds, "OOO|icciiiiii",
         kwlist, &A, &B, &W, &itype, &jobz, &uplo, &n, &ldA, &ldB, &oA,
         &oB, &oW)) 
         return NULL;
